@@ -56,8 +56,14 @@ def direct_check(tree, module):
             ok = base.endswith('_deconstructor')
         elif fun and fun.startswith('get.'):
             ok = base.endswith('_get_' + fun[4:])
+            b = body_of.get(tgt, '')
+            if 'out[0]' not in b or re.search(r'obj->%s\s*=[^=]' % re.escape(fun[4:]), b) or b.count('checkArguments(') != 1:
+                bad.append('the routine behind get.%s (id %d, %s) does not have the role of a getter' % (fun[4:], i, tgt))
         elif fun and fun.startswith('set.'):
             ok = base.endswith('_set_' + fun[4:])
+            b = body_of.get(tgt, '')
+            if 'out[0]' in b or not re.search(r'obj->%s\s*=[^=]' % re.escape(fun[4:]), b) or b.count('checkArguments(') != 1:
+                bad.append('the routine behind set.%s (id %d, %s) does not have the role of a setter' % (fun[4:], i, tgt))
         elif fun == 'string_serialize':
             ok = base.endswith('_string_serialize')
         elif fun == 'string_deserialize':
